@@ -327,6 +327,18 @@ def run_shard(spec, ctx):
                 if src is None:
                     ctx.monitor('generator_rejects')
                     continue
+                if i % 6 == 4 and b'\r' not in src and 'StatLabel' not in p.feats:
+                    # editor tabs: the code continues after a `-->8` line; one renaming covers the whole cart
+                    p2 = progen.gen_program(rng, opts)
+                    src2 = layout.render(p2, rng, crlf=False)
+                    if src2 is not None and 'StatLabel' not in p2.feats:
+                        src = b'do\n' + src.rstrip(b'\n') + b'\nend\n-->8\ndo\n' + src2.rstrip(b'\n') + b'\nend\n'
+                        if reflex.try_lex(src)[1] is None:
+                            p.toks = p.toks + p2.toks
+                            p.names = []
+                            ctx.feature('code_in_two_editor_tabs')
+                        else:
+                            continue
                 if 'StatLabel' in p.feats or 'StatGoto' in p.feats:
                     ctx.feature('labels_or_gotos')
                 config = rng.choice(('default', 'default', 'keep_all', 'keep_file', 'keep_file', 'keep_all+keep_file'))
@@ -421,6 +433,8 @@ def gates(m, tier):
             missed.append('configuration %s used %d times' % (c, f.get('config:' + c, 0)))
     if mon.get('mappings_checked', 0) < 300:
         missed.append('mappings checked: %d' % mon.get('mappings_checked', 0))
+    if f.get('code_in_two_editor_tabs', 0) < 50:
+        missed.append('programs with code in two editor tabs: %d' % f.get('code_in_two_editor_tabs', 0))
     if f.get('keepfile_names_by_first_byte', 0) < 181 or mon.get('reused_args_runs', 0) < 40:
         missed.append('keep-file names by first byte: %d; runs with a reused writer-args dict: %d'
                       % (f.get('keepfile_names_by_first_byte', 0), mon.get('reused_args_runs', 0)))
